@@ -615,6 +615,8 @@ def barrier_src(ctx: Ctx) -> None:
                     empty = (isinstance(t.ops[0], ast.Eq) and k_ == 0) or (isinstance(t.ops[0], ast.Lt) and k_ == 1) or (isinstance(t.ops[0], ast.LtE) and k_ == 0)
                     if (nonempty and pol) or (empty and not pol):
                         continue
+                if isinstance(t, ast.Name) and pol and y.value is not None and isinstance(y.value, ast.Name) and t.id == y.value.id:
+                    continue  # `if gen:` — the yielded collection is not empty
                 extra.append(("" if pol else "not ") + unparse(t))
             # comprehension filters inside the yielded value's definition
             for nm in ast.walk(y.value) if y.value is not None else []:
